@@ -99,7 +99,12 @@ func grammarGeoJSON(s *vs.Stream, depth int) string {
 	case 5:
 		coords = gList(s, 3, func() string { return gList(s, 2, func() string { return gRingJSON(s) }) })
 	default:
-		return fmt.Sprintf(`{"type":"GeometryCollection","geometries":%s}`, gList(s, 4, func() string { return grammarGeoJSON(s, depth-1) }))
+		return fmt.Sprintf(`{"type":"GeometryCollection","geometries":%s}`, gList(s, 4, func() string {
+			if s.Intn(12, "g/oddmember") == 11 {
+				return []string{"null", "[]", "5", `"x"`, "{}", "true"}[s.Intn(6, "g/odd")]
+			}
+			return grammarGeoJSON(s, depth-1)
+		}))
 	}
 	extra := ""
 	switch s.Intn(8, "g/extra") {
